@@ -9,6 +9,8 @@
      biffrec enc   <fmts> <1904> <strings> <hex trailer> <items>    (encoder, spec, known class, model)
        items, ';'-separated: N r c xf bits | R r c xf form | M r cf xf/form|… | S r c xf isst |
          L r c xf wide units | B r c xf b | E r c xf e | D wide rf rl cf cl | O typ hex |
+         U hexbof recs  (nested substream: BOF body, recs = - | typ:hex[:hexcont…]|…, then its EOF) |
+         G rf,rl,cf,cl/…  (MERGECELLS; - for no region) |
          F r c xf cached grbit chn hexfmla [between]   cached = n:bits | b:0/1 | e:i | k |
            s:wide:units[:wide:units]…  (STRING fragment, then one pair per CONTINUE record);
            between = - | typ:hex|typ:hex  (records between FORMULA and STRING)
@@ -147,6 +149,16 @@ let mids_of_str (s : string) : (coq_N * coq_N list) list =
         match String.split_on_char ':' t with
         | [typ; hx] -> (n_of_string typ, (if hx = "-" then [] else bytes_of_hex hx))
         | _ -> failwith "bad between record") (String.split_on_char '|' s)
+(* the records of a nested substream: "-" or typ:hex[:hexcont…]|… ("-" for an empty body; the
+   CONTINUE bodies are never empty) *)
+let srecs_of_str (s : string) : srec list =
+  if s = "-" then [] else
+    List.map (fun t ->
+        match String.split_on_char ':' t with
+        | typ :: hx :: conts ->
+          { sr_typ = n_of_string typ; sr_body = (if hx = "-" then [] else bytes_of_hex hx);
+            sr_conts = List.map bytes_of_hex conts }
+        | _ -> failwith "bad substream record") (String.split_on_char '|' s)
 let item_of_str (s : string) : item =
   let f = Array.of_list (String.split_on_char ' ' s) in
   let n i = n_of_string f.(i) in
@@ -167,6 +179,13 @@ let item_of_str (s : string) : item =
                      (if Array.length f > 8 then mids_of_str f.(8) else []))
   | "D" -> IDims (f.(1) = "1", n 2, n 3, n 4, n 5)
   | "O" -> IOther (n 1, hexarg f.(2))
+  | "U" -> ISub (hexarg f.(1), srecs_of_str f.(2))
+  | "G" ->
+    IMerge (if f.(1) = "-" then [] else
+              List.map (fun t ->
+                  match String.split_on_char ',' t with
+                  | [a; b; c; d] -> (((n_of_string a, n_of_string b), n_of_string c), n_of_string d)
+                  | _ -> failwith "bad region") (String.split_on_char '/' f.(1)))
   | _ -> failwith "bad item"
 
 let run (args : string list) : string =
